@@ -116,6 +116,9 @@ NotNoop(h, docBefore, o) ==
          /\ CanonSeq(h.remove, "mset") \cap CanonSeq(h.add, "mset") = {}
   ELSE /\ NonVoid(h.remove) # <<>> \/ NonVoid(h.add) # <<>>
        /\ NonVoid(h.remove) # NonVoid(h.add)
+       \* "equal sub-documents are never mentioned": one list hunk never removes and adds the same value (two equal elements
+       \* inside one edited region could have been kept: every minimal edit script has this property)
+       /\ IsListHunk(h) => SeqRange(NonVoid(h.remove)) \cap SeqRange(NonVoid(h.add)) = {}
 
 (* added values are in b at the addressed location; for set / bag hunks the removed ones are not *)
 AddsInB(h, b, docBefore, o) ==
